@@ -189,7 +189,7 @@ impl Prop for C01 {
         for (nm, side) in [(&pf.old_name, "old"), (&pf.new_name, "new")] {
             if let Some(n) = nm {
                 // names are paths: a doubled slash or a "." component spells the same path
-                let s = String::from_utf8_lossy(n).split('/').filter(|c| !c.is_empty() && *c != ".").collect::<Vec<_>>().join("/");
+                let s = crate::ws::name_str(n).split('/').filter(|c| !c.is_empty() && *c != ".").collect::<Vec<_>>().join("/");
                 if s != case.path && s != format!("{}.orig", case.path) {
                     return Verdict::Fail(format!("{} name after -p{} is {:?}, expected {:?}", side, case.strip, s, case.path));
                 }
